@@ -25,6 +25,11 @@ def _extract_block_key(message):
     return (
         message.remote.blockwise_key,
         message.code,
+        # The path is a part of the cache key, but a Site takes the components
+        # it has consumed out of the message it passes on: without this, a
+        # resource that is registered under two paths would continue a
+        # transfer that was started at the one with blocks sent to the other.
+        getattr(message, "_original_request_path", None),
         message.get_cache_key(
             [
                 OptionNumber.BLOCK1,
